@@ -321,6 +321,7 @@ static void run_hist(const Plan &p) {
 static Plan gen_conf(u64 seed) {
     Rng r(seed); Plan p; p.mode = "conf"; p.seed = seed;
     std::string font = gen_font(r);
+    if (r.chance(1, 6)) { static const char *coll[] = {"AwamiNastaliq-Regular", "Awami_test", "Awami_compressed_test"}; font = coll[r.below(3)]; }   // collision fixing, exclusion glyphs, octaboxes: only these fonts
     Op ref; ref.kind = "make_face"; ref.s = font; ref.a = {0, 0, 0, 0, 0}; p.ops.push_back(ref);
     unsigned k = 1 + r.below(3);
     for (unsigned i = 0; i < k; ++i) p.ops.push_back(gen_make_face(r, font, 0, true, true));
